@@ -121,6 +121,14 @@ func main() {
 			budget = os.Args[i]
 		}
 	}
+	if budget == "" {
+		// wall budget per exploration (one scenario): a level that does not finish stops the scenario
+		// at the last completed preemption bound; reported as exhaustive:false, never as a failure
+		budget = "3m"
+		if tier == "thorough" {
+			budget = "8m"
+		}
+	}
 	seed, _ := strconv.Atoi(os.Getenv("VERIF_SEED"))
 	start := time.Now()
 
